@@ -8,7 +8,7 @@ EXTENDS VecIndex, Json, IOUtils
 VARIABLES l, prev
 Trace == ndJsonDeserialize(IOEnv.TRACE)
 Ev == Trace[l]
-tvars == <<rows, dead, trained, l, prev>>
+tvars == <<rows, dead, trained, hw, l, prev>>
 NoPrev == [key |-> <<>>, res |-> <<>>]
 
 Step(op) == l <= Len(Trace) /\ Ev.op = op /\ l' = l + 1
@@ -16,7 +16,7 @@ AsSet(s) == {s[i] : i \in DOMAIN s}
 
 TInit == VInit /\ l = 1 /\ prev = NoPrev
 
-TReset == Step("reset") /\ rows' = <<>> /\ dead' = {} /\ trained' = ~NeedsTraining /\ prev' = NoPrev
+TReset == Step("reset") /\ rows' = <<>> /\ dead' = {} /\ trained' = ~NeedsTraining /\ hw' = 0 /\ prev' = NoPrev
 
 \* training may refuse a set it considers too small (no effect); it never panics
 TTrain == /\ Step("train") /\ ~Ev.panic /\ prev' = NoPrev
